@@ -1,6 +1,7 @@
 import Chewing.Props.C04
 import Chewing.Props.C06
 import Chewing.Proofs.EditorCursor
+import Chewing.Proofs.EditorBound
 /-!
 # C05 — editing keys act exactly at the cursor and the buffer stays bounded (component level)
 
